@@ -7,6 +7,12 @@
    flex item / grid item flags, in-flow and running flags, GridX / Colspan /
    Rowspan, text, child order) and evaluates the specification predicate
    Box/BoxWf.wf on the implementation's tree.
+   `fnotes` = the boxes elementToBox moved out of the tree into the footnote
+   list (float: footnote), before any fix-up: they are generated boxes too, so
+   "display:none subtrees generate no box" (code 4) is evaluated on them as
+   well.  `hidden` comes from the document (style attributes) and from computed
+   styles of a parse on which no box was generated yet (elementToBox overwrites
+   the display of the style objects it visits).
    codes: 0 agree; 1 trees differ; 3 implementation tree not well formed;
    4 a box was generated for a display:none element; 5 implementation
    panicked where the model returns a tree; 6 model panics / runs out of fuel
@@ -30,7 +36,7 @@ Open Scope Z_scope.
 Inductive node := Nd (t : N) (el : Z) (ps : N) (bits : N) (nums : list Z) (text : list N) (ch : list node).
 
 Inductive case :=
-| CTree (input : node) (hidden : list Z) (status : N) (output : node)
+| CTree (input : node) (hidden : list Z) (status : N) (output : node) (fnotes : list node)
 | CMakeBox (d0 d1 d2 : N) (res : N)
 | CClasses (t : N) (bits : N)
 | CProperParents (p c : N) (r : bool).
@@ -139,7 +145,7 @@ Inductive model_result :=
 
 Definition model_out (c : case) : model_result :=
   match c with
-  | CTree input _ _ _ =>
+  | CTree input _ _ _ _ =>
       match model_tree input with
       | Some (Ok b) => MTree (node_of_box b)
       | Some (Panic s) => MPanic s
@@ -160,10 +166,10 @@ Fixpoint tables_overlaps_explained (b : box) : bool :=
 
 Definition check (c : case) : N :=
   match c with
-  | CTree input hidden status output =>
-      match box_of_input input, model_tree input with
-      | Some bin, Some r =>
-          if negb (no_box_for hidden bin) then 4%N
+  | CTree input hidden status output fnotes =>
+      match box_of_input input, model_tree input, all_some (map box_of_input fnotes) with
+      | Some bin, Some r, Some fb =>
+          if negb (no_box_for hidden bin && forallb (no_box_for hidden) fb) then 4%N
           else
           match r, status with
           | Ok b, 0%N =>
@@ -181,7 +187,7 @@ Definition check (c : case) : N :=
           | _, 0%N => 6%N
           | _, _ => 0%N          (* both sides crash *)
           end
-      | _, _ => 7%N
+      | _, _, _ => 7%N
       end
   | CMakeBox d0 d1 d2 res =>
       let m := match make_box_type (dword_of d0) (dword_of d1) (dword_of d2) with
